@@ -474,6 +474,45 @@ def gen_io_req(rng, chunk):
     return mkreq(PREFIX + "/" + name, h, plain=name, cat="io")
 
 
+def bad_etag_forms(e):
+    """If-Match / If-None-Match values that are present but hold malformed entity-tags: nothing well-formed at all
+    (unquoted, weak prefix without quotes, unterminated or unopened quote, text glued to a tag, two tags without a
+    comma, only separators) and lists mixing malformed elements with well-formed ones that do / do not match."""
+    return [e, f"W/{e}", f'"{e}', f'{e}"', "W/x", "junk", f'"{e}"x', f'"{e}" "{e}"', f"'{e}'", ",", f"{e}, {e}",
+            f'"nomatch", {e}', f'junk, "nomatch"', f'junk, W/"nomatch"', f', "nomatch"',
+            f'"{e}", junk', f'junk, "{e}"', f'W/"{e}", junk', f'junk, W/"{e}"', f'"nomatch", junk, "{e}"']
+
+
+def empty_elem_forms(e):
+    """Well-formed entity-tag lists with empty list elements (RFC 9110 5.6.1.2: to be skipped by the recipient)."""
+    return [f', "{e}"', f'"nomatch",, "{e}"', f',W/"{e}"', f'"{e}",', f', "nomatch"', f'"nomatch", ,"{e}", ']
+
+
+def gen_badtag_req(rng, chunk):
+    """A conditional request whose If-Match and/or If-None-Match field is present but malformed or only partly
+    well-formed, alone and combined with the date conditionals, Range and If-Range."""
+    name = pick_file(rng, chunk, big_ok=False)
+    aim = AIM[name]
+    size = FILES[aim][0]
+    e, lm = etag_of(aim), lm_of(aim)
+    h = []
+    which = rng.choice(["If-Match", "If-None-Match", "If-None-Match", "both"])
+    for k in ("If-Match", "If-None-Match"):
+        if which in (k, "both"):
+            h.append([k, rng.choice(bad_etag_forms(e) if rng.random() < 0.8 else empty_elem_forms(e))])
+        elif rng.random() < 0.15:
+            h.append([k, rng.choice(etag_forms(e)[1:])])
+    for k in ("If-Unmodified-Since", "If-Modified-Since"):
+        if rng.random() < 0.5:
+            h.append([k, rng.choice(date_forms(lm)[1:])])
+    if rng.random() < 0.35:
+        h.append(["Range", rng.choice(range_specs(size, chunk)) if rng.random() < 0.8 else rng.choice(MALFORMED_RANGES)])
+        if rng.random() < 0.4:
+            h.append(["If-Range", rng.choice(if_range_forms(e, lm)[1:])])
+    rng.shuffle(h)
+    return mkreq(PREFIX + "/" + name, h, "HEAD" if rng.random() < 0.1 else "GET", plain=name, cat="badtag")
+
+
 EDGE_AE = [None, "gzip", "br", "gzip, br", "br, gzip", "GZIP", "identity", "deflate", "gzip, deflate, br"]
 
 
@@ -546,6 +585,10 @@ def gen(rng, tier, index):
     if rng.random() < 0.12:
         c = rng.choice(conns)
         c["reqs"].insert(rng.randrange(len(c["reqs"]) + 1), gen_edge_req(rng, chunk))
+    # drawn after everything else: one conditional request with a malformed / partly well-formed entity-tag list
+    if rng.random() < 0.12:
+        c = rng.choice(conns)
+        c["reqs"].insert(rng.randrange(len(c["reqs"]) + 1), gen_badtag_req(rng, chunk))
     return {"cfg": cfg, "conns": conns, "faults": faults, "meta": {"mode": mode, "faulty": faulty}}
 
 
@@ -641,6 +684,36 @@ def enumerate_cases(tier, seed):
                                                      ("If-Modified-Since", ims), ("Range", rg)) if v is not None]
                             reqs.append(mkreq(PREFIX + "/" + name, h, plain=name, cat="cond"))
     yield from _enum_pack(cfg, reqs, "cond")
+    # 4. present but malformed / partly well-formed entity-tag lists x the date conditional of the same step x Range
+    reqs = []
+    for name in ("in.txt", "f17.bin"):
+        aim = AIM[name]
+        e, lm = etag_of(aim), lm_of(aim)
+        forms = bad_etag_forms(e)
+        for k, dk in (("If-Match", "If-Unmodified-Since"), ("If-None-Match", "If-Modified-Since")):
+            for tv in forms if name == "in.txt" else forms[:4] + forms[-5:]:
+                for dv in date_forms(lm)[:4]:
+                    for rg in (None, "bytes=1-2"):
+                        h = [[k, tv]] + ([[dk, dv]] if dv else []) + ([["Range", rg]] if rg else [])
+                        reqs.append(mkreq(PREFIX + "/" + name, h, plain=name, cat="badtag"))
+        for tv in forms[:3] + forms[-5:-3]:
+            for other in (None, f'"{e}"', '"nomatch"'):
+                # the malformed field in one position, a well-formed one (or none) in the other, both dates
+                for k, ok_ in (("If-Match", "If-None-Match"), ("If-None-Match", "If-Match")):
+                    h = [[k, tv]] + ([[ok_, other]] if other else []) + [["If-Unmodified-Since", R.http_date(lm)],
+                                                                        ["If-Modified-Since", R.http_date(lm)]]
+                    reqs.append(mkreq(PREFIX + "/" + name, h, plain=name, cat="badtag"))
+            reqs.append(mkreq(PREFIX + "/" + name, [["If-Match", tv], ["Range", "bytes=0-0"], ["If-Range", f'"{e}"']], plain=name, cat="badtag"))
+            reqs.append(mkreq(PREFIX + "/" + name, [["If-None-Match", tv], ["If-Modified-Since", R.http_date(lm + 1)]], "HEAD", plain=name, cat="badtag"))
+    aim = AIM["in.txt"]
+    e, lm = etag_of(aim), lm_of(aim)
+    for k, dk in (("If-Match", "If-Unmodified-Since"), ("If-None-Match", "If-Modified-Since")):
+        for tv in empty_elem_forms(e):
+            for dv in (None, R.http_date(lm - 1), R.http_date(lm)):
+                for rg in (None, "bytes=1-2"):
+                    h = [[k, tv]] + ([[dk, dv]] if dv else []) + ([["Range", rg]] if rg else [])
+                    reqs.append(mkreq(PREFIX + "/in.txt", h, plain="in.txt", cat="badtag"))
+    yield from _enum_pack(cfg, reqs, "badtag")
 
 
 def shrink(scn):
@@ -671,6 +744,17 @@ def shrink(scn):
                 yield with_c(reqs=c["reqs"][:j] + [r2] + c["reqs"][j + 1:])
             if r["m"] != "GET":
                 yield with_c(reqs=c["reqs"][:j] + [dict(r, m="GET")] + c["reqs"][j + 1:])
+            if r["cat"] == "badtag":
+                # a simpler malformed value: only the first list element that is not a well-formed tag, then "junk"
+                for k, (hk, hv) in enumerate(r["h"]):
+                    if hk not in ("If-Match", "If-None-Match") or not isinstance(R.scan_etag_field(hv), tuple):
+                        continue
+                    parts = [x.strip() for x in hv.split(",")]
+                    alts = [x for x in parts if x and R.scan_etag_field(x) == ([], True)][:1] + ["junk"]
+                    for nv in alts:
+                        if nv != hv and len(nv) < len(hv):
+                            r2 = dict(r, h=r["h"][:k] + [[hk, nv]] + r["h"][k + 1:])
+                            yield with_c(reqs=c["reqs"][:j] + [r2] + c["reqs"][j + 1:])
             if r["cat"] == "edge" and r["plain"] in EDGE:
                 # an ordinary name first, then the next shorter boundary name (same headers)
                 alts = ["f17.bin"] + [n for n in sorted(EDGE) if len(n) == len(r["plain"]) - 1]
